@@ -47,4 +47,5 @@ def jobs(tier):
             add('operator_job', 'op[%s,%s,ra]' % (list(lv), opn), lengths=lv, opname=opn, other='ra')
             add('operator_job', 'op[%s,%s,scalar]' % (list(lv), opn), lengths=lv, opname=opn, other='scalar')
         add('copy_job', 'copy[%s]' % list(lv), lengths=lv)
+        add('reduce_job', 'reductions-and-bool-ops[%s]' % list(lv), lengths=lv)
     return J
